@@ -193,6 +193,21 @@ def make_tree(kind, seed, t):
                 n.content = bad[(seed + k) % len(bad)]
                 k += 1
         return root
+    if kind == "shadowed":
+        # every attribute name a node's rule declares but the node does not carry sits in the node's EXTRAS instead, under the
+        # spellings an XML import would file it (xml:lang for lang, a prefixed or Clark-notation name otherwise) - and one
+        # attribute the node does carry is mirrored there too.  attributes and extras are two fields; reading never merges them
+        root = tables.TreeGen(t, seed, max_depth=4, breadth=3).gen(rnd.choice(["dataset", "eml", "abstract", "creator", "methods"]))
+        ttl = Node("title", content="A title in another language")
+        root.add_child(ttl, index=0)
+        for i, n in enumerate(walk(root)):
+            decl = list((t.rules.get(t.node_map.get(n.name), [{}])[0] or {}))
+            for a in decl:
+                if a not in n.attributes:
+                    n.add_extras(["xml:" + a, "{http://www.w3.org/XML/1998/namespace}" + a, "x:" + a, a][(i + len(a)) % 4] if a != "lang" or i % 2 else "xml:lang", "en")
+            for a in list(n.attributes)[:1]:
+                n.add_extras("xml:" + a, "shadow of " + str(n.attributes[a]))
+        return root
     if kind == "unregistered":
         # a live tree some of whose nodes (the root among them) are no longer in the registry - delete_node_instance(id,
         # children=False) does that: the registry is part of what a read-only operation must leave alone
@@ -324,12 +339,12 @@ def run(rep, tier, seed):
     rnd = random.Random(seed)
     jobs = []
     # all ordered pairs on small trees of every kind
-    for i, kind in enumerate(["generated", "entities", "ns", "default-ns"] + (["generated", "entities"] if tier == "thorough" else [])):      # (small trees: 31^2 pairs of calls each)
+    for i, kind in enumerate(["generated", "entities", "ns", "default-ns", "shadowed"] + (["generated", "entities"] if tier == "thorough" else [])):      # (small trees: 31^2 pairs of calls each)
         jobs.append((kind, seed * 101 + i, plan_pairs))
     # seeded sequences of length 24 on larger trees, incl. the fixture
-    nseq = 20 if tier == "quick" else 300
+    nseq = 22 if tier == "quick" else 308
     for i in range(nseq):
-        kind = ["fixture", "generated", "entities", "ns", "default-ns", "mutated", "stripped", "exotic", "unregistered", "padded-typed"][i % 10]
+        kind = ["fixture", "generated", "entities", "ns", "default-ns", "mutated", "stripped", "exotic", "unregistered", "padded-typed", "shadowed"][i % 11]
         jobs.append((kind, seed * 977 + i, [rnd.choice(sorted(ops)) for _ in range(24)]))
     traces = [tr for chunk in parallel(w_record, jobs, chunk=1) for tr in chunk]
     strip = lambda tr: {"init": tr["init"], "events": tr["events"]}  # noqa: E731
